@@ -67,7 +67,7 @@ func main() {
 		if err != nil {
 			return err
 		}
-		if !bytes.Contains(src, []byte("time.")) {
+		if !bytes.Contains(src, []byte("time.")) && !bytes.Contains(src, []byte("sync.")) {
 			return nil
 		}
 		rel, _ := filepath.Rel(repoAbs, p)
@@ -89,6 +89,12 @@ func main() {
 	if err != nil {
 		fatal(err)
 	}
+	// the lock-order tracker lives in token/jwt next to TimeFunc (an added file, nothing in /repo changes)
+	ld := filepath.Join(*out, "zz_verif_lockdep.go")
+	if err := os.WriteFile(ld, []byte(lockdepSrc), 0o644); err != nil {
+		fatal(err)
+	}
+	replace[filepath.Join(repoAbs, "token", "jwt", "zz_verif_lockdep.go")] = ld
 	b, _ := json.MarshalIndent(map[string]any{"Replace": replace}, "", " ")
 	if err := os.WriteFile(filepath.Join(*out, "overlay.json"), b, 0o644); err != nil {
 		fatal(err)
@@ -118,8 +124,47 @@ func rewrite(path string, src []byte, inJWT bool) ([]byte, bool, error) {
 			}
 		}
 	}
-	if timeName == "" || timeName == "_" || timeName == "." {
+	if timeName == "_" || timeName == "." {
+		timeName = ""
+	}
+	// name under which "sync" is imported: sync.Mutex / sync.RWMutex become the lock-order tracking wrappers
+	syncName := ""
+	for _, im := range f.Imports {
+		ip, _ := strconv.Unquote(im.Path.Value)
+		if ip == "sync" {
+			syncName = "sync"
+			if im.Name != nil {
+				syncName = im.Name.Name
+			}
+		}
+	}
+	if syncName == "_" || syncName == "." || inJWT {
+		syncName = ""
+	}
+	if timeName == "" && syncName == "" {
 		return nil, false, nil
+	}
+	syncChanged := false
+	if syncName != "" {
+		ast.Inspect(f, func(n ast.Node) bool {
+			sel, ok := n.(*ast.SelectorExpr)
+			if !ok {
+				return true
+			}
+			id, ok := sel.X.(*ast.Ident)
+			if !ok || id.Name != syncName || id.Obj != nil {
+				return true
+			}
+			switch sel.Sel.Name {
+			case "Mutex":
+				sel.X, sel.Sel = ast.NewIdent("verifclk"), ast.NewIdent("VerifMutex")
+				syncChanged = true
+			case "RWMutex":
+				sel.X, sel.Sel = ast.NewIdent("verifclk"), ast.NewIdent("VerifRWMutex")
+				syncChanged = true
+			}
+			return true
+		})
 	}
 	clockExpr := func() ast.Expr {
 		if inJWT {
@@ -133,7 +178,7 @@ func rewrite(path string, src []byte, inJWT bool) ([]byte, bool, error) {
 			return false
 		}
 		id, ok := s.X.(*ast.Ident)
-		return ok && id.Name == timeName && id.Obj == nil && s.Sel.Name == name
+		return ok && timeName != "" && id.Name == timeName && id.Obj == nil && s.Sel.Name == name
 	}
 	changed := false
 	var visit func(n ast.Node) bool
@@ -254,6 +299,8 @@ func rewrite(path string, src []byte, inJWT bool) ([]byte, bool, error) {
 		}
 		return true
 	})
+	timeChanged := changed
+	changed = changed || syncChanged
 	if !changed {
 		return nil, false, nil
 	}
@@ -277,14 +324,236 @@ func rewrite(path string, src []byte, inJWT bool) ([]byte, bool, error) {
 			return nil, false, fmt.Errorf("no import decl")
 		}
 	}
-	// keep the time import alive
-	f.Decls = append(f.Decls, &ast.GenDecl{Tok: token.VAR, Specs: []ast.Spec{&ast.ValueSpec{
-		Names: []*ast.Ident{ast.NewIdent("_")},
-		Type:  &ast.SelectorExpr{X: ast.NewIdent(timeName), Sel: ast.NewIdent("Duration")},
-	}}})
+	// keep the time / sync imports alive
+	if timeChanged {
+		f.Decls = append(f.Decls, &ast.GenDecl{Tok: token.VAR, Specs: []ast.Spec{&ast.ValueSpec{
+			Names: []*ast.Ident{ast.NewIdent("_")},
+			Type:  &ast.SelectorExpr{X: ast.NewIdent(timeName), Sel: ast.NewIdent("Duration")},
+		}}})
+	}
+	if syncChanged {
+		f.Decls = append(f.Decls, &ast.GenDecl{Tok: token.VAR, Specs: []ast.Spec{&ast.ValueSpec{
+			Names: []*ast.Ident{ast.NewIdent("_")},
+			Type:  &ast.SelectorExpr{X: ast.NewIdent(syncName), Sel: ast.NewIdent("Locker")},
+		}}})
+	}
 	var buf bytes.Buffer
 	if err := format.Node(&buf, fset, f); err != nil {
 		return nil, false, err
 	}
 	return buf.Bytes(), true, nil
 }
+
+// lockdepSrc is added to package token/jwt by the overlay. VerifMutex / VerifRWMutex replace sync.Mutex /
+// sync.RWMutex in every fosite source file: they behave identically and additionally record, per goroutine, which
+// locks are held when another one is requested. The first time the lock-order graph gets a cycle (lock B requested
+// while holding A, although somewhere A was requested while holding B) a report is printed to stderr; the driver
+// turns it into a C19 violation. A potential deadlock is thus seen from two *sequential* calls; it does not have
+// to happen.
+const lockdepSrc = `package jwt
+
+import (
+	"bytes"
+	"fmt"
+	"os"
+	"runtime"
+	"strconv"
+	"sync"
+	"sync/atomic"
+)
+
+type VerifMutex struct {
+	mu sync.Mutex
+	id uint64
+}
+
+type VerifRWMutex struct {
+	mu sync.RWMutex
+	id uint64
+}
+
+var verifLD struct {
+	mu       sync.Mutex
+	next     uint64
+	held     map[uint64][]uint64            // goroutine -> lock ids, in acquisition order
+	edges    map[uint64]map[uint64][]uintptr // a -> b: b requested while a held (callers of the first observation)
+	reported map[[2]uint64]bool
+}
+
+func verifLockID(p *uint64) uint64 {
+	if v := atomic.LoadUint64(p); v != 0 {
+		return v
+	}
+	n := atomic.AddUint64(&verifLD.next, 1)
+	if atomic.CompareAndSwapUint64(p, 0, n) {
+		return n
+	}
+	return atomic.LoadUint64(p)
+}
+
+func verifGoID() uint64 {
+	var b [64]byte
+	n := runtime.Stack(b[:], false)
+	f := bytes.Fields(b[:n])
+	if len(f) < 2 {
+		return 0
+	}
+	id, _ := strconv.ParseUint(string(f[1]), 10, 64)
+	return id
+}
+
+func verifFrames(pcs []uintptr) string {
+	var sb bytes.Buffer
+	fr := runtime.CallersFrames(pcs)
+	for {
+		f, more := fr.Next()
+		if f.Function != "" {
+			fmt.Fprintf(&sb, "      %s\n          %s:%d\n", f.Function, f.File, f.Line)
+		}
+		if !more {
+			break
+		}
+	}
+	return sb.String()
+}
+
+// verifRequest runs before the real lock call.
+func verifRequest(id uint64) uint64 {
+	g := verifGoID()
+	verifLD.mu.Lock()
+	defer verifLD.mu.Unlock()
+	if verifLD.held == nil {
+		verifLD.held = map[uint64][]uint64{}
+		verifLD.edges = map[uint64]map[uint64][]uintptr{}
+		verifLD.reported = map[[2]uint64]bool{}
+	}
+	for _, h := range verifLD.held[g] {
+		if h == id {
+			continue
+		}
+		if _, ok := verifLD.edges[h][id]; ok {
+			continue
+		}
+		pcs := make([]uintptr, 24)
+		pcs = pcs[:runtime.Callers(3, pcs)]
+		if verifLD.edges[h] == nil {
+			verifLD.edges[h] = map[uint64][]uintptr{}
+		}
+		verifLD.edges[h][id] = pcs
+		// does a path id -> ... -> h exist?
+		if path := verifPath(id, h, map[uint64]bool{}); path != nil && !verifLD.reported[[2]uint64{h, id}] {
+			verifLD.reported[[2]uint64{h, id}] = true
+			verifLD.reported[[2]uint64{id, h}] = true
+			var sb bytes.Buffer
+			fmt.Fprintf(&sb, "WARNING: LOCK ORDER INVERSION\n  lock #%d requested while holding lock #%d at:\n%s", id, h, verifFrames(pcs))
+			for i := 0; i+1 < len(path); i++ {
+				fmt.Fprintf(&sb, "  earlier, lock #%d was requested while holding lock #%d at:\n%s", path[i+1], path[i], verifFrames(verifLD.edges[path[i]][path[i+1]]))
+			}
+			fmt.Fprintf(&sb, "  two goroutines taking these paths at the same time block each other forever\n")
+			os.Stderr.Write(sb.Bytes())
+		}
+	}
+	return g
+}
+
+func verifPath(from, to uint64, seen map[uint64]bool) []uint64 {
+	if from == to {
+		return []uint64{to}
+	}
+	if seen[from] {
+		return nil
+	}
+	seen[from] = true
+	for n := range verifLD.edges[from] {
+		if p := verifPath(n, to, seen); p != nil {
+			return append([]uint64{from}, p...)
+		}
+	}
+	return nil
+}
+
+func verifAcquired(g, id uint64) {
+	verifLD.mu.Lock()
+	verifLD.held[g] = append(verifLD.held[g], id)
+	verifLD.mu.Unlock()
+}
+
+func verifReleased(id uint64) {
+	g := verifGoID()
+	verifLD.mu.Lock()
+	defer verifLD.mu.Unlock()
+	rm := func(g uint64) bool {
+		l := verifLD.held[g]
+		for i := len(l) - 1; i >= 0; i-- {
+			if l[i] == id {
+				l = append(l[:i], l[i+1:]...)
+				if len(l) == 0 {
+					delete(verifLD.held, g)
+				} else {
+					verifLD.held[g] = l
+				}
+				return true
+			}
+		}
+		return false
+	}
+	if rm(g) {
+		return
+	}
+	for og := range verifLD.held { // unlocked by another goroutine than the one that locked
+		if rm(og) {
+			return
+		}
+	}
+}
+
+func (m *VerifMutex) Lock() {
+	id := verifLockID(&m.id)
+	g := verifRequest(id)
+	m.mu.Lock()
+	verifAcquired(g, id)
+}
+func (m *VerifMutex) TryLock() bool {
+	if m.mu.TryLock() {
+		verifAcquired(verifGoID(), verifLockID(&m.id))
+		return true
+	}
+	return false
+}
+func (m *VerifMutex) Unlock() { verifReleased(verifLockID(&m.id)); m.mu.Unlock() }
+
+func (m *VerifRWMutex) Lock() {
+	id := verifLockID(&m.id)
+	g := verifRequest(id)
+	m.mu.Lock()
+	verifAcquired(g, id)
+}
+func (m *VerifRWMutex) RLock() {
+	id := verifLockID(&m.id)
+	g := verifRequest(id)
+	m.mu.RLock()
+	verifAcquired(g, id)
+}
+func (m *VerifRWMutex) TryLock() bool {
+	if m.mu.TryLock() {
+		verifAcquired(verifGoID(), verifLockID(&m.id))
+		return true
+	}
+	return false
+}
+func (m *VerifRWMutex) TryRLock() bool {
+	if m.mu.TryRLock() {
+		verifAcquired(verifGoID(), verifLockID(&m.id))
+		return true
+	}
+	return false
+}
+func (m *VerifRWMutex) Unlock()  { verifReleased(verifLockID(&m.id)); m.mu.Unlock() }
+func (m *VerifRWMutex) RUnlock() { verifReleased(verifLockID(&m.id)); m.mu.RUnlock() }
+func (m *VerifRWMutex) RLocker() sync.Locker { return (*verifRLocker)(m) }
+
+type verifRLocker VerifRWMutex
+
+func (r *verifRLocker) Lock()   { (*VerifRWMutex)(r).RLock() }
+func (r *verifRLocker) Unlock() { (*VerifRWMutex)(r).RUnlock() }
+`
